@@ -252,6 +252,10 @@ func PrepareBuild(o buildOpts) (*Build, error) {
 	if o.Race {
 		args = append(args, "-race")
 	}
+	if os.Getenv("VSIM_COVER") != "" {
+		// development aid (tools/coverage.sh): statement coverage of the code under test
+		args = append(args, "-cover", "-covermode=atomic", "-coverpkg=go.uber.org/thriftrw/...")
+	}
 	if o.NeedRoot {
 		b.SimTest = filepath.Join(b.Bin, "sim.test")
 		if _, err := runCmd(b.Src, env, "go", append(args, "-o", b.SimTest, ".")...); err != nil {
